@@ -379,7 +379,7 @@ func (s *c08Sys) Step(hist []c08Ev) (string, core.Verdict) {
 			return "", core.Fail("tensor %d: real spent flag=%v, model spent=%v (kind %s ops %v)", i, dirty, t.spent, t.kind, t.ops)
 		}
 		isNode := t.tracked && len(t.ops) > 0
-		if isNode != (len(targets) > 0) {
+		if !t.spent && isNode != (len(targets) > 0) {
 			return "", core.Fail("tensor %d: has %d back edges, model says graph node=%v", i, len(targets), isNode)
 		}
 		if g != nil {
@@ -413,6 +413,28 @@ func (s *c08Sys) Step(hist []c08Ev) (string, core.Verdict) {
 // {fresh tracked, fresh untracked, spent tracked, untracked result of a spent
 // tensor}, the result is tracked iff some operand is tracked and none is spent,
 // and spent iff some operand is spent; forward values never depend on it.
+// gradSnap / gradChanged: "did this tensor receive (more) gradient" judged by VALUE (nil-ness and
+// elements), so that a Gradient() accessor that hands out a defensive copy is as good as one that
+// returns the stored tensor.
+func gradSnap(t tensor.Tensor) *ref.T {
+	if g := t.Gradient(); g != nil {
+		return rt.Read(g)
+	}
+	return nil
+}
+
+func gradChanged(before *ref.T, t tensor.Tensor) bool {
+	after := gradSnap(t)
+	if (before == nil) != (after == nil) {
+		return true
+	}
+	if before == nil {
+		return false
+	}
+	ok, _ := core.ExactEq(after, before)
+	return !ok
+}
+
 func c08OpTable(c *core.Ctx) {
 	states := []string{"T", "U", "S", "D"}
 	mkState := func(x *ref.T, st string) tensor.Tensor {
@@ -493,9 +515,9 @@ func c08OpTable(c *core.Ctx) {
 					return core.Fail("%s with operand states %s (T tracked, U untracked, S spent, D derived from spent): result tracked=%v spent=%v hasGradient=%v, expected tracked=%v spent=%v no gradient", oc.ID(), desc, tr, dirty, g != nil, wantTr, anySpent)
 				}
 				// behavioural: back-propagating the result reaches exactly the fresh tracked operands
-				before := make([]tensor.Tensor, n)
+				before := make([]*ref.T, n)
 				for i := range rin {
-					before[i] = rin[i].Gradient()
+					before[i] = gradSnap(rin[i])
 				}
 				if err := tensor.BackPropagate(y); err != nil {
 					return core.Fail("%s with operand states %s: BackPropagate: %v", oc.ID(), desc, err)
@@ -504,7 +526,7 @@ func c08OpTable(c *core.Ctx) {
 				for i := 0; i < n; i++ {
 					st := states[x%len(states)]
 					x /= len(states)
-					changed := rin[i].Gradient() != before[i]
+					changed := gradChanged(before[i], rin[i])
 					want := wantTr && st == "T"
 					if changed != want {
 						return core.Fail("%s with operand states %s: operand %d (%s) gradient assigned=%v, expected %v", oc.ID(), desc, i, st, changed, want)
@@ -545,12 +567,12 @@ func c08OpTable(c *core.Ctx) {
 					if tr != wantTr || dirty != anySpent || g != nil {
 						return core.Fail("%s on shapes %v with operand states %s%s (T tracked, U untracked, S spent, D derived from spent): result tracked=%v spent=%v, expected tracked=%v spent=%v", k, pair, sa, sb, tr, dirty, wantTr, anySpent)
 					}
-					before := []tensor.Tensor{rin[0].Gradient(), rin[1].Gradient()}
+					before := []*ref.T{gradSnap(rin[0]), gradSnap(rin[1])}
 					if err := tensor.BackPropagate(y); err != nil {
 						return core.Fail("%s on shapes %v with operand states %s%s: BackPropagate: %v", k, pair, sa, sb, err)
 					}
 					for i, st := range []string{sa, sb} {
-						changed := rin[i].Gradient() != before[i]
+						changed := gradChanged(before[i], rin[i])
 						if want := wantTr && st == "T"; changed != want {
 							return core.Fail("%s on shapes %v with operand states %s%s: operand %d gradient assigned=%v, expected %v", k, pair, sa, sb, i, changed, want)
 						}
@@ -583,7 +605,7 @@ func c08OpTable(c *core.Ctx) {
 						}
 					}
 					special := rin[pos]
-					before := special.Gradient()
+					before := gradSnap(special)
 					y, err := tensor.Concat(append([]tensor.Tensor{}, rin...), 0)
 					if err != nil {
 						return core.Fail("Concat of %d tensors: %v", k, err)
@@ -597,7 +619,7 @@ func c08OpTable(c *core.Ctx) {
 					if err := tensor.BackPropagate(y); err != nil {
 						return core.Fail("BackPropagate: %v", err)
 					}
-					if changed := special.Gradient() != before; changed != wantTr {
+					if changed := gradChanged(before, special); changed != wantTr {
 						return core.Fail("Concat of %d tensors, operand %d in state %s: gradient assigned=%v, expected %v", k, pos, st, changed, wantTr)
 					}
 					if wantTr {
@@ -627,8 +649,14 @@ func c08OpTable(c *core.Ctx) {
 					return core.Fail("%s: %v", k, err)
 				}
 				tr, dirty, g, targets, _ := tensor.VerifGradState(y)
-				if tr || dirty || g != nil || len(targets) != 0 {
-					return core.Fail("%s of operands in states %s%s: comparison result tracked=%v spent=%v (a comparison result is a fresh untracked tensor whatever its operands went through)", k, states[code%4], states[code/4], tr, dirty)
+				spentOperand := code%4 >= 2 || code/4 >= 2
+				if tr || g != nil || len(targets) != 0 || (dirty && !spentOperand) {
+					return core.Fail("%s of operands in states %s%s: comparison result tracked=%v spent=%v hasGradient=%v (a comparison result is an untracked tensor)", k, states[code%4], states[code/4], tr, dirty, g != nil)
+				}
+				if spentOperand {
+					// whether the comparison of a spent tensor counts as "computed from a spent tensor" is not
+					// specified (DESIGN 5, C08): only "untracked, no gradient" is demanded, no successors are judged
+					return core.Pass()
 				}
 				// the mask combined with a fresh tracked tensor gives a tracked result that back-propagates
 				fresh := rt.Make(in[0], true)
